@@ -716,6 +716,76 @@ def import_time_tensors(model: Model, R: RuleResult, files: Set[str]) -> int:
     return n
 
 
+# ------------------------------------------------------------------------------------------------- DT: python numbers -> tensors
+def _is_python_float(v: ast.AST, call: ast.AST, fi: FuncInfo) -> Optional[str]:
+    """a reason why `v` is certainly a Python number that may be a float with more than single precision, else None"""
+    import struct
+    from ..model import path_conditions
+    if isinstance(v, ast.Constant) and isinstance(v.value, float):
+        try:
+            exact = struct.unpack("f", struct.pack("f", v.value))[0] == v.value
+        except (OverflowError, struct.error):
+            exact = False
+        return None if exact else "the literal %r is not representable in single precision" % v.value
+    if isinstance(v, ast.Call) and isinstance(v.func, ast.Name) and v.func.id == "float" and v.args and not isinstance(v.args[0], ast.Constant):
+        return "`%s` is a Python float" % ast.unparse(v)[:40]
+    if isinstance(v, ast.Name):
+        conds = [c for c, t in path_conditions(call) if t]
+        for c in conds:
+            if "isinstance(%s, float)" % v.id in c or "isinstance(%s, numbers." % v.id in c or "type(%s) is float" % v.id in c or "type(%s) == float" % v.id in c:
+                return "`%s` is a Python number on this path (`%s`)" % (v.id, c[:70])
+        for a in fi.node.args.args + fi.node.args.kwonlyargs:
+            if a.arg == v.id and a.annotation is not None and ast.unparse(a.annotation) in ("float", "Union[int, float]", "Union[float, int]"):
+                stores = [n for n in ast.walk(fi.node) if isinstance(n, ast.Name) and n.id == v.id and isinstance(n.ctx, ast.Store)]
+                if not stores:
+                    return "`%s` is declared a Python float" % v.id
+    if isinstance(v, ast.BinOp):
+        return _is_python_float(v.left, call, fi) or _is_python_float(v.right, call, fi)
+    if isinstance(v, ast.UnaryOp):
+        return _is_python_float(v.operand, call, fi)
+    return None
+
+
+def default_dtype_conversions(model: Model, R: RuleResult, files: Set[str]) -> int:
+    """A Python number supplied by the caller that is turned into a tensor (`torch.tensor(v)`, `torch.as_tensor(v)`,
+    `torch.full(shape, v)`) must be given the dtype of the data it will be combined with.  Without `dtype=` it becomes a *default-dtype*
+    (float32) tensor: the value is rounded to single precision once and for all, and because a 0-dim tensor does not take part in
+    type promotion the float64 result silently carries the rounded value (0.1 -> 0.10000000149)."""
+    n = 0
+    for fi in model.all_functions():
+        if fi.module.relpath not in files:
+            continue
+        for c in own_nodes(fi.node):
+            if not (isinstance(c, ast.Call) and ast.unparse(c.func) in ("torch.tensor", "torch.as_tensor", "torch.scalar_tensor", "torch.full")):
+                continue
+            n += 1
+            if any(k.arg == "dtype" for k in c.keywords):
+                continue
+            fn = ast.unparse(c.func)
+            v = (c.args[1] if len(c.args) > 1 else None) if fn == "torch.full" else (c.args[0] if c.args else None)
+            if v is None or isinstance(v, ast.Starred):
+                continue
+            why = _is_python_float(v, c, fi)
+            if why:
+                R.bad(fi, enclosing_stmt(c), "`%s` builds a default-dtype (float32) tensor from a Python number: %s; the value is rounded to single precision and, being 0-dim, "
+                      "does not promote - the float64 result carries the rounded value.  Give it the dtype of the data" % (ast.unparse(c)[:70], why))
+    R.ok("anchor files", "%d tensor construction(s) from values examined: no Python float becomes a default-dtype tensor" % n)
+    import types
+    ctl = ast.parse("def f(x, extrap):\n    if isinstance(extrap, int) or isinstance(extrap, float):\n        extrap = torch.tensor(extrap, device=x.device)\n    return extrap\n")
+    ctl2 = ast.parse("def f(x, extrap):\n    if isinstance(extrap, int) or isinstance(extrap, float):\n        extrap = torch.tensor(extrap, dtype=x.dtype, device=x.device)\n    a = torch.tensor(0.5)\n    return extrap\n")
+    def hits(tree):
+        tree._parent = None
+        for n_ in ast.walk(tree):
+            for ch in ast.iter_child_nodes(n_):
+                ch._parent = n_
+        fake = types.SimpleNamespace(node=tree.body[0])
+        return [c for c in ast.walk(tree) if isinstance(c, ast.Call) and ast.unparse(c.func) == "torch.tensor" and not any(k.arg == "dtype" for k in c.keywords)
+                and _is_python_float(c.args[0], c, fake)]
+    fired, quiet = bool(hits(ctl)), not hits(ctl2)
+    R.controls.append(dict(name="python-float-to-tensor", ok=fired and quiet, detail="positive control fired=%s, dtype twin quiet=%s" % (fired, quiet)))
+    return n
+
+
 # ------------------------------------------------------------------------------------------------- CP: copy protocol
 COPY_HOOKS = ("__deepcopy__", "__copy__", "__getstate__", "__setstate__", "__reduce__", "__reduce_ex__", "__getnewargs__", "__getnewargs_ex__")
 
@@ -769,6 +839,10 @@ def common_rules(model: Model, prop: str, tier: str) -> List[RuleResult]:
     if files:
         R = RuleResult(prop, "MT", "tensor constants built at import time state their dtype (anchor files)", min_instances=1)
         import_time_tensors(model, R, files)
+        out.append(R)
+    if files:
+        R = RuleResult(prop, "DT", "a Python number turned into a tensor is given the dtype of the data, never the default dtype (anchor files)", min_instances=1)
+        default_dtype_conversions(model, R, files)
         out.append(R)
     if prop in TG_PROPS and files:
         R = RuleResult(prop, "TG", "no formula is selected by an approximate comparison (allclose / isclose) in the numerical kernels (anchor files)", min_instances=1)
